@@ -60,3 +60,20 @@ Theorem C02_moved_on_run_is_left_alone : forall c cur next run s l s1,
   updater c cur next run s = (Ok tt, s1).
 Proof. exact updater_moved_on. Qed.
 Print Assumptions C02_moved_on_run_is_left_alone.
+
+(* "For every run, each change of its PERSISTED status goes ... to one of the destinations declared for that status, and its first
+   status is ... a status that the workflow declares", read off the ghost history of committed writes: every committed write of a run
+   is its first write, at a declared status, or keeps the status of the write of that run it replaced ([lastrun h1 x]), or follows a
+   transition declared for it *)
+From WF Require Import proofs.TokenFacts proofs.HistVersions proofs.Determined.
+Theorem C02_persisted_statuses_follow_declared_transitions : forall c ops, hist_ok ops ->
+  forall h1 x h2, w_hist (fst (run_ops c ops)) = h1 ++ x :: h2 ->
+  match lastrun h1 x with
+  | None => is_valid (ec_graph c) (r_status x) = true
+  | Some p => r_status x = r_status p \/ validate_transition (ec_graph c) (r_status p) (r_status x) = true
+  end.
+Proof.
+  intros c ops H h1 x h2 E. pose proof (persisted_sequence_facts c ops H h1 x h2 E) as F.
+  destruct (lastrun h1 x) as [p|]; [|apply F]. destruct (sf_status _ _ _ F) as [A|(A & _)]; auto.
+Qed.
+Print Assumptions C02_persisted_statuses_follow_declared_transitions.
